@@ -36,6 +36,7 @@ type gtype struct {
 	Name   string
 	File   string // schema file that defines the type
 	Fields []gfield
+	Plain  bool // no field is a resolver: the type needs no resolver struct, accessor or methods
 }
 
 type gfield struct {
@@ -52,7 +53,7 @@ type schema struct {
 func (s schema) clone() schema {
 	var out schema
 	for _, t := range s.Types {
-		nt := gtype{Name: t.Name, File: t.File}
+		nt := gtype{Name: t.Name, File: t.File, Plain: t.Plain}
 		nt.Fields = append(nt.Fields, t.Fields...)
 		out.Types = append(out.Types, nt)
 	}
@@ -92,7 +93,7 @@ func (s schema) files() map[string]string {
 			fmt.Fprintf(b, "%s %s {\n", kw, t.Name)
 			for _, f := range byFile[file] {
 				force := " @goField(forceResolver: true)"
-				if t.Name == "Query" {
+				if t.Name == "Query" || t.Plain {
 					force = ""
 				}
 				fmt.Fprintf(b, "  %s%s: %s%s\n", f.Name, f.Args, f.Type, force)
